@@ -27,7 +27,8 @@ LEVELS = {
 OPS = ['add_state', 'remove_state', 'rename_state', 'move_state', 'add_transition', 'remove_transition',
        'rotate_transition']
 WITNESSES = ['failed_edit', 'successful_' + 'remove_state', 'successful_rename_state', 'successful_move_state',
-             'successful_rotate_transition', 'rename_with_self_loop', 'remove_with_descendants', 'rotate_half_valid']
+             'successful_rotate_transition', 'rename_with_self_loop', 'remove_with_descendants', 'rotate_half_valid',
+             'transitions_differing_by_priority_only']
 STUBS = []
 ASSUMPTIONS = ['moving a state under a non-composite state is accepted by the API and not demanded to fail (not '
                'documented either way); the tree/consistency facts are still demanded afterwards',
@@ -70,7 +71,7 @@ class Ref:
         for i in range(cm.n):
             self.st[cm.names[i]] = {'kind': cm.kind[i], 'parent': cm.name(cm.par[i]),
                                     'ref': cm.name(cm.init[i]) if cm.init[i] >= 0 else None}
-        self.tr = [[cm.names[s], cm.name(t), cg.EVENTS[e]] for s, t, e in cm.tr]
+        self.tr = [[cm.names[s], cm.name(t), cg.EVENTS[e], 0] for s, t, e in cm.tr]      # + priority
 
     def desc(self, nm):
         out = []
@@ -103,7 +104,7 @@ def snapshot(sc):
                   sorted(((t.source, t.target, t.event) for t in sc.transitions_to(n)), key=str),
                   sc.events_for(n))
     out['per'] = per
-    out['tr'] = [(id(t), t.source, t.target, t.event) for t in sc.transitions]
+    out['tr'] = [(id(t), t.source, t.target, t.event, t.priority) for t in sc.transitions]
     out['events'] = sc.events_for()
     return out
 
@@ -136,16 +137,16 @@ def agrees(sc, ref):
             return 'initial of %s: %r vs %r' % (n, st.initial, v['ref'])
         if v['kind'] >= cg.SH and st.memory != v['ref']:
             return 'memory of %s: %r vs %r' % (n, st.memory, v['ref'])
-    got = sorted(((t.source, t.target, t.event) for t in sc.transitions), key=str)
-    want = sorted(((a, b, c) for a, b, c in ref.tr), key=str)
+    got = sorted(((t.source, t.target, t.event, t.priority) for t in sc.transitions), key=str)
+    want = sorted(((a, b, c, p) for a, b, c, p in ref.tr), key=str)
     if got != want:
         return 'transitions %r vs %r' % (got, want)
     for n in ref.st:
-        if sorted(((t.source, t.target, t.event) for t in sc.transitions_from(n)), key=str) != \
-                sorted(((a, b, c) for a, b, c in ref.tr if a == n), key=str):
+        if sorted(((t.source, t.target, t.event, t.priority) for t in sc.transitions_from(n)), key=str) != \
+                sorted(((a, b, c, p) for a, b, c, p in ref.tr if a == n), key=str):
             return 'transitions_from(%s)' % n
-        if sorted(((t.source, t.target, t.event) for t in sc.transitions_to(n)), key=str) != \
-                sorted(((a, b, c) for a, b, c in ref.tr if b == n or (b is None and a == n)), key=str):
+        if sorted(((t.source, t.target, t.event, t.priority) for t in sc.transitions_to(n)), key=str) != \
+                sorted(((a, b, c, p) for a, b, c, p in ref.tr if b == n or (b is None and a == n)), key=str):
             return 'transitions_to(%s)' % n
     return None
 
@@ -186,6 +187,17 @@ def harness(g, chart, level, canary=False):
     sc, trs, cm = cg.build(chart, 'id')
     ref = Ref(cm)
     extra_tr = M.Transition(cm.names[0], None, event='unregistered')
+    unregistered = [extra_tr]
+    if trs:
+        # a registered transition that differs from transition 0 by its priority only, and an unregistered look-alike
+        # of both (different priority again): operations must pick exactly the transition they are given
+        t0 = trs[0]
+        dup = M.Transition(t0.source, t0.target, event=t0.event, guard=t0.guard, action=t0.action, priority=1)
+        sc.add_transition(dup)
+        ref.tr.append([t0.source, t0.target, t0.event, 1])
+        unregistered.append(M.Transition(t0.source, t0.target, event=t0.event, guard=t0.guard, action=t0.action,
+                                         priority=2))
+        g.witness('transitions_differing_by_priority_only')
     log = []
     info = lambda: {'chart': cm.describe(), 'ops': log}   # noqa: E731
     for k in range(level['K']):
@@ -270,30 +282,30 @@ def harness(g, chart, level, canary=False):
             expect_ok = (src in ref.st and ref.st[src]['kind'] <= cg.ORTH and (tgt is None or tgt in ref.st))
 
             def apply():
-                ref.tr.append([src, tgt, 'n%d' % k])
+                ref.tr.append([src, tgt, 'n%d' % k, 0])
         elif op == 'remove_transition':
-            cands = live + [extra_tr]
+            cands = live + unregistered
             t = cands[g.choice('a%d' % k, len(cands))]
-            args = (t.source, t.target, t.event)
+            args = (t.source, t.target, t.event, t.priority)
             call = lambda: sc.remove_transition(t)   # noqa: E731
-            expect_ok = t is not extra_tr
+            expect_ok = not any(t is u for u in unregistered)
 
             def apply():
-                ref.tr.remove([t.source, t.target, t.event])
+                ref.tr.remove([t.source, t.target, t.event, t.priority])
         else:
-            cands = live + [extra_tr]
+            cands = live + unregistered
             t = cands[g.choice('a%d' % k, len(cands))]
             opts = names + ['']
             ns = opts[g.choice('b%d' % k, len(opts))]
             nt = opts[g.choice('c%d' % k, len(opts))]
-            args = ((t.source, t.target, t.event), ns, nt)
+            args = ((t.source, t.target, t.event, t.priority), ns, nt)
             call = lambda: sc.rotate_transition(t, new_source=ns, new_target=nt)   # noqa: E731
             src_ok = ns == '' or (ns in ref.st and ref.st[ns]['kind'] <= cg.ORTH)
             tgt_ok = nt == '' or nt is None or nt in ref.st
-            expect_ok = not (ns == '' and nt == '') and t is not extra_tr and src_ok and tgt_ok
-            if t is not extra_tr and src_ok != tgt_ok and not (ns == '' and nt == ''):
+            expect_ok = not (ns == '' and nt == '') and not any(t is u for u in unregistered) and src_ok and tgt_ok
+            if not any(t is u for u in unregistered) and src_ok != tgt_ok and not (ns == '' and nt == ''):
                 g.witness('rotate_half_valid')
-            old3 = [t.source, t.target, t.event]
+            old3 = [t.source, t.target, t.event, t.priority]
 
             def apply():
                 i = ref.tr.index(old3)
